@@ -417,20 +417,50 @@ def classify(case, impl, model, oracle):
     return op + tag + ":" + (impl if not impl.startswith("ok") else "ok")
 
 
+THEOREMS = ["c11_sign_digest_eq", "c11_sign", "c11_read", "c11_verify_digest_eq", "c11_verify", "c11_verify_iff",
+            "c11_verify_errors", "c11_check_time_no_overflow", "c11_check_time"]
+
 CHECK = {
     "property": "C11",
     "props": "Props/C11.v",
-    "theorems": [],
+    "theorems": THEOREMS,
     "allowed_axioms": [],
     "suites": [{
         "name": "lib", "impl_bin": "impl_c11", "extract": "Extract/ExC11.v", "driver": "run_c11.ml",
         "gen": gen, "nontrivial": nontrivial, "classify": classify, "oracle_ok": oracle_ok,
         "exhaustive": {"quick": False, "thorough": False},
-        "rule": "TODO",
+        "rule": ("seeded cases against the library API: sign_request/response/subsequent on random messages (consistent and "
+                 "inconsistent headers, ARCOUNT borrow cases, too-short / ARCOUNT=0 messages), keys of 0..200 octets, both "
+                 "algorithms, times 0..2^48-1, fudges, original IDs, error codes incl. BADTIME other-data, prior MACs incl. "
+                 ">65535 octets; unsigned(); ReadTsigRr::try_from + accessors + validate_as_tsig on valid and mangled RDATA, "
+                 "wrong type/class/TTL; new_from_read; verify_* on messages signed by the Python signer with MACs truncated "
+                 "to allowed/disallowed lengths, now at time-signed +-fudge +-{0,1}, wrong key/prior MAC/mode, flipped "
+                 "octets; and a sweep: single-octet corruption at EVERY position of the message, the key name and the "
+                 "RDATA of ~200 signed messages (all three modes) - every covered octet must be rejected (T:cov), "
+                 "every uncovered one (message ID, letter case, fields outside the subsequent-message digest) must "
+                 "still verify (T:unc). The implementation's answer must equal the model's (HMAC table from hashlib) "
+                 "and the prediction of checks/tsig_py.py; non-trivial = a signature was produced, a verification "
+                 "reached its MAC-size/MAC/time decision, or a TSIG RR was parsed; distinct = distinct case line"),
         "timeout": {"quick": 300, "thorough": 3000},
     }],
-    "trusted_base": [],
-    "assumptions": [],
+    "trusted_base": [
+        "Coq 8.16.1 kernel (vm_compute only in two closed arithmetic facts and the Examples)",
+        "axioms: none (every theorem: Closed under the global context); HMAC is a universally quantified function",
+        "cryptographic assumption (stated, not proved): collision/second-preimage resistance of HMAC-SHA1/-SHA256 - "
+        "the theorems show that a changed covered octet changes the MAC *input*",
+        "the streaming contract of digest::Mac (update(a);update(b) = update(a++b)) and verify_truncated_left as read "
+        "from digest-0.10.6 (n = 0 or n > output size rejected, leftmost n octets compared)",
+        "extraction: ExtrOcamlBasic only; OCaml 4.13.1 ocamlopt; ocaml/run_c11.ml instantiates hmac by the per-case "
+        "table (key, digest input) -> HMAC computed by Python hashlib/hmac; a lookup miss is flagged",
+        "correspondence: checks/c11.py generators, checks/tsig_py.py (RFC 8945 implementation in Python used as third "
+        "implementation and oracle), harness/src/bin/impl_c11.rs (catch_unwind), line diff in tools/qv.py",
+        "tools/gen/tsigconsts.py re-extracts algorithm names, the class/TTL literal, MAC-size and length constants, "
+        "TYPE TSIG, QCLASS ANY, extended RCODEs; SHA output sizes 20/32 are literals (FIPS 180-4)",
+        "not modelled here: the Reader that splits the TSIG RR off the message (C15) and the Writer's name compression (C12/C13)",
+    ],
+    "assumptions": ["octets < 256; names are valid wire names (labels 1..63, <= 255 octets); 16-bit/48-bit fields in range",
+                    "the message handed to sign_*/verify_* has a 12-octet header and ARCOUNT >= 1 (documented precondition; "
+                    "otherwise the code panics, and so does the model)"],
 }
 
 MANIFEST = {
